@@ -558,6 +558,11 @@ static void run_op(void)
                 memset(&at, 0, sizeof at);        /* a genuinely fresh object, as a newly created parser would be */
                 cat_init(&at, &desc, &iface, use_mutex ? &mutex_if : NULL);
                 after_op();
+        } else if (strcmp(o, "NI") == 0) {
+                /* cat_init again on the USED object (not zeroed): whatever cat_init does not assign keeps its old value */
+                fill_buffers();
+                cat_init(&at, &desc, &iface, use_mutex ? &mutex_if : NULL);
+                after_op();
         } else if (strcmp(o, "sc") == 0) {
                 size_t n; uint8_t *p = unhex(tok[1], &n);
                 char *nm = calloc(n + 1, 1);
